@@ -87,7 +87,11 @@ async def run_async(scn):
         ev.append({'ev': 'Eh2', 'tag': tag_of(request)})
         return error
 
-    d = AsyncDispatcher(middlewares=[probe], error_handlers={None: [eh], 1000: [eh2]}, concurrent_batch=scn['concurrent'])
+    def eager(request, context, handler):
+        """a middleware written as a plain function that starts the rest of the chain at once and hands back the future"""
+        return asyncio.ensure_future(handler(request, context))
+
+    d = AsyncDispatcher(middlewares=[eager, probe] if scn.get('eager') else [probe], error_handlers={None: [eh], 1000: [eh2]}, concurrent_batch=scn['concurrent'])
     d.add(fail2, 'fail2')
     d.registry.view(V, context='context')
     d.add(ok, 'ok')
@@ -144,6 +148,10 @@ def main():
     traces = []
     for s in scns:
         traces.append({'scn': s, 'ev': loop.run_until_complete(run_async(s))})
+        if not s['concurrent'] and 'eager' not in s:
+            # sequential mode again, behind an outermost plain-function middleware that schedules its handler eagerly
+            s2 = dict(s, eager=True)
+            traces.append({'scn': s2, 'ev': loop.run_until_complete(run_async(s2))})
     json.dump(traces, open(sys.argv[2], 'w'))
 
 
